@@ -12,7 +12,8 @@ ENGINE_B = [{'template': 't_vft', 'kinds': ['dispatch_', 'layout_'], 'max_quick'
                       [8, 2, 0, 0, 1, 2, 1, 1, 2, 0, 0, 1, 0, 0, 0, 0, 2, 1, 0, 0, 0, 0, 0, 0]]},
             # one virtual function with 0..4 parameters of mixed width, incl. parameters named like the wrapper's own locals (`this`, `f`)
             {'template': 't_vftargs', 'kinds': ['dispatch_'], 'max_quick': 8, 'max_thorough': 32,
-             'fixed': [[8, 1, 2, 2, 0, 0, 0, 1, 1, 3], [8, 2, 3, 0, 1, 3, 0, 2, 0, 0], [8, 1, 4, 1, 0, 0, 3, 3, 1, 1], [8, 1, 1, 0, 0, 0, 0, 2, 0, 0]]}]
+             'fixed': [[8, 1, 2, 2, 0, 0, 0, 1, 1, 3, 0], [8, 2, 3, 0, 1, 3, 0, 2, 0, 0, 0], [8, 1, 4, 1, 0, 0, 3, 3, 1, 1, 0], [8, 1, 1, 0, 0, 0, 0, 2, 0, 0, 0],
+                       [8, 1, 2, 0, 1, 0, 0, 0, 0, 0, 1], [8, 2, 1, 3, 0, 0, 0, 0, 0, 0, 1]]}]
 FN = ['g0', 'g1', 'g2', 'g3']
 EXPLANATION = ('Template t_vft (type T with a vftable block of m functions, each with an optional symbolic #[index], and an optional '
                'symbolic vftable #[size]) is executed symbolically through convert_grammar_functions_to_semantic_functions, '
@@ -58,7 +59,8 @@ def assume_attr_order(a, ps):
 def vftargs_assume(a, ps, tier):
     kinds = (0, 3) if tier == 'quick' else (0, 1, 2, 3, 5)
     A = [a[0] == ps, z3.UGE(a[1], 1), z3.ULE(a[1], 2), z3.ULE(a[2], 4), z3.ULE(a[7], 3), z3.ULE(a[8], 1), z3.ULT(a[9], 6 if tier != 'quick' else 3),
-         z3.Implies(a[8] == 0, a[9] == 0)]
+         z3.Implies(a[8] == 0, a[9] == 0), z3.ULE(a[10], 1)]
+    if tier == 'quick': A.append(z3.Implies(a[10] != 0, z3.And(a[7] == 0, a[8] == 0)))      # packed owner: default names, no index
     for j in range(4):
         A.append(z3.Or(*[a[3 + j] == k for k in kinds]))
         A.append(z3.Implies(z3.ULE(a[2], j), a[3 + j] == 0))
@@ -102,7 +104,7 @@ def vftargs_queries(a, leaf, py):
 def slices(tier, rng):
     out = []
     for ps in (4, 8):
-        out.append(Slice('args-ps%d' % ps, 't_vftargs', 10, lambda a, ps=ps, tier=tier: vftargs_assume(a, ps, tier), opts={'must_reach': ['ok']}, ctx={'m': 1}))
+        out.append(Slice('args-ps%d' % ps, 't_vftargs', 11, lambda a, ps=ps, tier=tier: vftargs_assume(a, ps, tier), opts={'must_reach': ['ok']}, ctx={'m': 1}))
     for ps in (4, 8):
         out.append(Slice('m1-attr-order-ps%d' % ps, 't_vft', 14, lambda a, ps=ps: assume_attr_order(a, ps), opts={'must_reach': ['ok']}, ctx={'m': 1}))
     mmax = 2 if tier == 'quick' else 3
@@ -197,8 +199,8 @@ def describe(template, args):
         n_ = min(a[2], 4); kind = a[7]
         nm = lambda j: 'this' if (kind == 1 and j == 0) else 'f' if ((kind == 2 and j == 0) or (kind == 3 and j == n_ - 1)) else 'a%d' % j
         ps_ = ['&mut self' if a[1] == 2 else '&self'] + ['%s: %s' % (nm(j), ARGS_TXT.get(a[3 + j], '?')) for j in range(n_)]
-        return '// pointer size %d\npub type T {\n    vftable { %spub fn v(%s) -> u32; },\n    pub x: *const u8,\n}' % (
-            a[0], '#[index(%d)] ' % a[9] if a[8] else '', ', '.join(ps_))
+        return '// pointer size %d\n%spub type T {\n    vftable { %spub fn v(%s) -> u32; },\n    pub x: *const u8,\n}' % (
+            a[0], '#[packed] ' if len(a) > 10 and a[10] else '', '#[index(%d)] ' % a[9] if a[8] else '', ', '.join(ps_))
     def s64(v):
         v &= (1 << 64) - 1
         return v - (1 << 64) if v >> 63 else v
